@@ -98,6 +98,12 @@ def render(dirs, lay):
             if rng.random() < lay.trail:
                 out.extend(b" ")
             out.extend(lay.nl)
+        if d.body is not None and d.bkind != "T" and not d.explicit and d.kw not in ("Body", "TYPE"):
+            # comments between the keyword line and the body: skipped by the scanner for every body
+            # directive except Body and TYPE, where the schema library takes them as part of the schema
+            while rng.random() < lay.trivia * 0.5:
+                pad = b" " * rng.randint(0, 5)
+                out.extend(pad + rng.choice([b"# before the body", b"#", b"## d", b"###" + lay.nl + b" block " + lay.nl + b"###", b"### one line ###", b""]) + lay.nl)
         if d.body is not None:
             body = d.body if isinstance(d.body, bytes) else d.body.encode()
             body = body.replace(b"\n", lay.nl)
